@@ -108,6 +108,19 @@ static J run(const J& c)
         p.usage(); // default argument: std::cout
         std::cout.flush();
         std::cout.rdbuf(old);
+        // the same parser after it has been moved (constructed, then assigned): the text must not change
+        {
+            no::parser q(std::move(p));
+            std::stringstream mc;
+            q.usage(mc);
+            o.set("movedc", J::bytes(mc.str()));
+            no::parser r("zzz", "another", "other group");
+            r.group("zz-first", "a group of the target");
+            r = std::move(q);
+            std::stringstream ma;
+            r.usage(ma);
+            o.set("moveda", J::bytes(ma.str()));
+        }
         o.set("fresh", J::bytes(fresh.str()));
         o.set("prior_ok", J(ptxt.compare(0, pre.size(), pre) == 0));
         o.set("prior", J::bytes(ptxt.substr(pre.size())));
